@@ -101,11 +101,13 @@ class Ctx:
             self._seen[i] = t
             if i in self.pending:
                 ax = self.pending.pop(i)
-                fresh_ax = [a for a in ax if a.get_id() not in self._seen]
-                for a in fresh_ax:
+                for a in ax:
                     self.solver.add(a)
                 self.model = None
-                stack.extend(fresh_ax)
+                # the axioms mention further auxiliary symbols: traverse them even if an identical term was seen before
+                for a in ax:
+                    self._seen.pop(a.get_id(), None)
+                stack.extend(ax)
             stack.extend(t.children())
 
     # -- solver access ---------------------------------------------------------------------
